@@ -238,13 +238,15 @@ def run_ens2prob(desc, ctx):
         ipath = gen.write_input(inp, d, None)
         opath = os.path.join(d, "out.nc")
         thr = sorted(rng.sample([0.0, 1.0, 2.0, 3.5, 5.0, 8.0, 12.0, 20.0], rng.randint(1, 4)))
+        if rng.random() < 0.5:
+            rng.shuffle(thr)          # thresholds may be given in any order
         qs = sorted(rng.sample([0.0, 0.1, 0.25, 0.5, 0.75, 0.9, 1.0], rng.randint(1, 4)))
         argv = [ipath, opath, "-r", ",".join(gen.fnum(t) for t in thr), "-q", ",".join(gen.fnum(q) for q in qs), "-p"]
         r = run_script("ens2prob.py", argv)
         ctx.count("ens2prob_runs")
         case = {"inp": inp, "argv": argv[2:]}
         anymiss = any(v is None for c in inp["cells"].values() for v in (c.get("e") or []))
-        ctx.case("ens2prob|M%d|%s|%s" % (min(M, 3), fmt, "missing-members" if anymiss else "complete"), True,
+        ctx.case("ens2prob|M%d|%s|%s|%s" % (min(M, 3), fmt, "missing-members" if anymiss else "complete", "sorted" if thr == sorted(thr) else "unsorted"), True,
                  {"argv": argv[2:], "members": M})
         if r.returncode != 0 or not os.path.exists(opath):
             ctx.violation("ens2prob-failed", "exit %d %s" % (r.returncode, r.stderr[-500:]), case)
@@ -270,7 +272,7 @@ def run_ens2prob(desc, ctx):
                             ctx.violation("ens2prob-%s-not-preserved" % f, "(%s,%s,%s): %r vs %r" % (t, l, loc[0], float(out[f][a, b, c]), w), case)
                     cdf = out["cdf"][a, b, c, :]
                     prev = -1.0
-                    for j, th in enumerate(thr):
+                    for j, th in sorted(enumerate(thr), key=lambda x: x[1]):
                         g = float(cdf[j])
                         if present:
                             want = sum(1 for m in present if m < th) / float(len(present))
